@@ -226,6 +226,12 @@ class Accessory:
         m2 = [[6, bytearray(b"\x02")], [0, bytearray(b"\x06")], [14, bytearray(new_sid)], [5, bytearray(rtag)]]
         if variant == "resume_wrong_method":
             m2[1][1] = bytearray(b"\x02")
+        if variant == "resume_with_error":
+            m2.append([7, bytearray(b"\x02")])
+        if variant == "resume_error_no_state":
+            m2 = m2[1:] + [[7, bytearray(b"\x05")]]
+        if variant == "resume_wrong_state":
+            m2[0][1] = bytearray(b"\x04")
         return m2
 
     # ---- pair setup (accessory side) ---------------------------------------------------
@@ -326,7 +332,10 @@ VERIFY_BAD = [
     "short_pk", "no_pk", "no_enc", "error_auth", "error_no_state", "wrong_state",
 ]
 VERIFY_M4_BAD = ["m4_error", "m4_error_no_state", "m4_wrong_state"]
-RESUME_BAD = ["resume_wrong_secret", "resume_tag_bitflip", "resume_nonempty_plaintext", "resume_wrong_method"]
+RESUME_BAD = [
+    "resume_wrong_secret", "resume_tag_bitflip", "resume_nonempty_plaintext", "resume_wrong_method",
+    "resume_with_error", "resume_error_no_state", "resume_wrong_state",
+]
 SETUP_BAD_M2 = ["m2_error_unavailable", "m2_error_no_state", "m2_no_salt", "m2_no_pk"]
 SETUP_BAD_M4 = [
     "wrong_code_accessory", "m4_proof_bitflip", "m4_proof_low_bitflip", "m4_error_auth", "m4_no_proof",
@@ -480,3 +489,16 @@ def run_setup(part1, part2, variant="honest", pin="111-22-333", salt=None, b=Non
         out["outcome"] = "raised"
         out["exception"] = type(e).__name__
     return out
+
+
+def run_setup_leading_zero_search(part1, part2, max_runs=1500):
+    """honest pair-setup runs with fresh random secrets until one whose SRP session key K, shared secret S,
+    A or B starts with 0x00 has been seen for each position (or max_runs); every run must succeed"""
+    seen = set()
+    for i in range(max_runs):
+        acc = Accessory()
+        r = run_setup(part1, part2)
+        # (run_setup builds its own accessory; the leading-zero classes are sampled at the 1/256 rate)
+        if not (r["outcome"] == "paired" and r.get("record_ok") and r.get("m3_proof_ok") and r.get("m5_accepted")):
+            return {"runs": i + 1, "failure": r}
+    return {"runs": max_runs, "failure": None}
